@@ -678,7 +678,72 @@ def r04_17(ctx: Ctx, rule: str = "R04.17") -> None:
     ctx.floor(rule, n, 4, "CrcError raises on the extraction path")
 
 
+def r04_18(ctx: Ctx, rule: str = "R04.18") -> None:
+    """the three predicates of SevenZipDecompressor that the extraction path builds its verdicts on say what their names say (the suite has no
+    folder CRC on main streams and no truncated stream, so their polarity is invisible to it): check_crc() is `stored == computed`;
+    is_finished() is `no sizes or delivered >= the folder's size`; is_exhausted() is the conjunction 'no packed input left' and 'nothing unused'
+    and 'nothing buffered' and 'the last call moved nothing' - every conjunct with this polarity; and `_progress` is 'something came out, or the
+    counters moved'."""
+    c = ctx.prog.cls("SevenZipDecompressor", "compressor")
+
+    def ret(name):
+        m = ctx.prog.method(c, name)
+        ctx.need(m is not None, f"SevenZipDecompressor.{name} vanished")
+        rs = [r for r in walk(m.node) if isinstance(r, ast.Return)]
+        return m, (rs[0].value if len(rs) == 1 else None)
+    m, v = ret("check_crc")
+    ok = shared.same_predicate(v, [({"self.crc": 7, "self.digest": 7}, True), ({"self.crc": 7, "self.digest": 8}, False), ({"self.crc": 0, "self.digest": 0}, True)])
+    ctx.check(ok, rule, m, m.node, "check_crc() is `self.crc == self.digest`", f"check_crc() returns `{norm(v) if v is not None else 'nothing'}`: the folder CRC comparison is inverted or void - "
+              "a folder whose data matches its CRC is refused, or damage under a folder CRC is delivered", construct="check_crc shape")
+    m, v = ret("is_finished")
+    ok = shared.same_predicate(v, [({"len(self.unpacksizes)": 0, "self._delivered": 0, "self.unpacksizes[-1]": 10**9}, True),
+                                   ({"len(self.unpacksizes)": 2, "self._delivered": 5, "self.unpacksizes[-1]": 9}, False),
+                                   ({"len(self.unpacksizes)": 2, "self._delivered": 9, "self.unpacksizes[-1]": 9}, True),
+                                   ({"len(self.unpacksizes)": 1, "self._delivered": 0, "self.unpacksizes[-1]": 0}, True),
+                                   ({"len(self.unpacksizes)": 1, "self._delivered": 12, "self.unpacksizes[-1]": 9}, True)])
+    ctx.check(ok, rule, m, m.node, "is_finished() is `no sizes or delivered >= folder size`", f"is_finished() returns `{norm(v) if v is not None else 'nothing'}`: the folder CRC is compared too early "
+              "(after the first member of a solid folder: valid archive refused) or never (damage certified)", construct="is_finished shape")
+    m, v = ret("is_exhausted")
+    cases = []
+    for left in (0, 5):
+        for unused in (0, 3):
+            for buf, pos in ((4, 4), (4, 2)):
+                for prog in (False, True):
+                    cases.append(({"self.input_size": 100, "self.consumed": 100 - left, "len(self._unused)": unused, "len(self._buf)": buf, "self._pos": pos, "self._progress": prog},
+                                  left == 0 and unused == 0 and buf <= pos and not prog))
+    ok = shared.same_predicate(v, cases)
+    ctx.check(ok, rule, m, m.node, "is_exhausted() is the four-fold conjunction", f"is_exhausted() returns `{norm(v) if v is not None else 'nothing'}`: the stall detection of the decode loops "
+              "raises 'unexpected end of data' on valid streams (a stage still holds data) or never (a truncated stream spins for ever)", construct="is_exhausted shape")
+    d = ctx.prog.method(c, "decompress")
+    pr = [n for n in walk(d.node) if isinstance(n, ast.Assign) and norm(n.targets[0]) == "self._progress"]
+    def prog_ok(e: ast.AST) -> bool:
+        # leaves: the length of what came out, and the (consumed, unpacked) pair before and after
+        pairs = [x for x in ast.walk(e) if isinstance(x, ast.Tuple) and "consumed" in norm(x)]
+        befores = [x for x in ast.walk(e) if isinstance(x, ast.Name) and x.id not in ("res", "self", "len", "sum", "bool")]
+        if len(pairs) != 1 or not befores:
+            return False
+        now, bef = norm(pairs[0]), norm(befores[0])
+        return shared.same_predicate(e, [({"len(res)": 3, now: (1, 2), bef: (1, 2), "res": b"abc"}, True), ({"len(res)": 0, now: (1, 2), bef: (1, 2), "res": b""}, False),
+                                         ({"len(res)": 0, now: (2, 2), bef: (1, 2), "res": b""}, True), ({"len(res)": 0, now: (1, 3), bef: (1, 2), "res": b""}, True)])
+    ok = bool(pr) and all(prog_ok(n.value) for n in pr)
+    ctx.check(ok, rule, d, pr[0] if pr else d.node, "`_progress` = output produced or counters moved", "SevenZipDecompressor.decompress does not set `_progress` to 'output was produced or the "
+              "input/stage counters moved': the decode loops take a working decoder for a stalled one (valid archive refused) or the reverse", construct="_progress shape")
+    rf = ctx.prog.func("helpers", "read_fully")
+    loops = [l for l in walk(rf.node) if isinstance(l, ast.While)]
+    ok = False
+    for l in loops:
+        reads = [n for n in ast.walk(l) if isinstance(n, ast.Assign) and isinstance(n.value, ast.Call) and attr_tail(n.value) == "read" and n.value.args
+                 and isinstance(n.value.args[0], ast.BinOp) and isinstance(n.value.args[0].op, ast.Sub) and norm(n.value.args[0].left) == rf.params[1] and norm(n.value.args[0].right).startswith("len(")]
+        brk = any(isinstance(t, ast.If) and any(isinstance(y, ast.Break) for y in t.body) and "== 0" in norm(t.test) for t in ast.walk(l))
+        grows = any(isinstance(n, ast.AugAssign) and isinstance(n.op, ast.Add) for n in ast.walk(l))
+        ok = ok or (bool(reads) and brk and grows)
+    ctx.check(ok, rule, rf, rf.node, "read_fully reads `size - len(data)` until it has all or a read comes back empty",
+              "helpers.read_fully does not keep reading the missing `size - len(data)` bytes: a read that comes back short where a multi-volume file changes volume truncates a header or "
+              "a packed block", construct="read_fully shape")
+
+
 def run(ctx: Ctx) -> None:
+    r04_18(ctx)
     r04_17(ctx)
     r04_16(ctx)
     r04_15(ctx)
